@@ -16,8 +16,8 @@ RULE = ("n files, one object each, inside {backend-wide, per-object, per-object 
         "non-trivial = distinct reached states; family ff: every sequence (bounded length) of reads/writes/outside changes on "
         "2 files and forced flushes followed by MORE operations, in 4 context shapes, judged by 'an outside change or a write "
         "disappears only after an error naming the file'")
-BOUNDS = {"quick": "n=2 files, 4 context shapes, Buffered/MemoryBuffered x dict + list(cls only); ff: sequences <= 4",
-          "thorough": "n=2 all 8 classes all shapes; n=3 for Buffered/MemoryBuffered dict; ff: sequences <= 5, all 8 classes"}
+BOUNDS = {"quick": "n=2 files (also with a first file that does not exist yet), 4 context shapes, Buffered/MemoryBuffered x dict + list(cls only); ff: sequences <= 4",
+          "thorough": "n=2 all 8 classes all shapes (also with a first file that does not exist yet); n=3 for Buffered/MemoryBuffered dict; ff: sequences <= 5, all 8 classes"}
 ASSUMPTIONS = ["an outside change always alters (size, mtime_ns) - the tuple the library records; the outside writer produces larger "
                "mtimes with arbitrary sizes AND smaller mtimes with an unchanged size (restored backup), never an identical tuple",
                "family ff (operations continue after a forced flush) is judged by the property itself - outside changes and writes "
@@ -45,6 +45,8 @@ def shape_prefix(shape, n):
 
 def _ext_count(ref, r):
     d = ref.disk[r]
+    if d is env.ABSENT:
+        return 0
     if isinstance(d, dict):
         return d.get("ext", 0)
     return int(str(d[0])[3:]) if isinstance(d[0], str) and d[0].startswith("ext") else 0
@@ -60,6 +62,9 @@ def alphabet(ref, task):
             o = r
             cnt = _ext_count(ref, r)
             extev = ("ext", r, ("ext",) if kind_ == "dict" else (0,), cnt + 1 if kind_ == "dict" else "ext%d" % (cnt + 1))
+            if ref.disk[r] is env.ABSENT:
+                # the file does not exist (yet): the outside writer creates it
+                extev = ("ext", r, (), {"ext": 1} if kind_ == "dict" else ["ext1", {"x": 0}])
             wr = ("op", o, "setitem", ("w", 1)) if kind_ == "dict" else ("op", o, "append", ("w",))
             wr2 = ("op", o, "setitem", ("w2", 2)) if kind_ == "dict" else ("op", o, "append", ("w2",))
             rd = ("op", o, "call", ())
@@ -179,10 +184,17 @@ def plan(tier, seed):
     else:
         combos = [(c, sh, 2) for fam in env.BUFFERED_FAMILIES for c in env.JSON_FAMILIES[fam] for sh in SHAPES] + \
                  [(c, sh, 3) for c in ("BufferedJSONDict", "MemoryBufferedJSONDict") for sh in ("cls", "obj")]
+    # the same with a first file that does not exist when it enters the buffer (the outside writer CREATES it)
+    combos += [(c, sh, -2) for c in (("BufferedJSONDict", "MemoryBufferedJSONDict", "MemoryBufferedJSONList") if tier == "quick" else
+                                     [c for fam in env.BUFFERED_FAMILIES for c in env.JSON_FAMILIES[fam]])
+               for sh in (("cls", "obj") if tier == "quick" else SHAPES)]
     for c, shape, n in combos:
         kind_ = env.kind_of(c)
-        cfg = seq.Config(c, initial=(INIT[kind_],) * n, objects=tuple(range(n)), prefix=shape_prefix(shape, n),
-                         label="%s/%s/%dfiles" % (c, shape, n))
+        absent_first = n < 0
+        n = abs(n)
+        init = ((env.ABSENT,) + (INIT[kind_],) * (n - 1)) if absent_first else (INIT[kind_],) * n
+        cfg = seq.Config(c, initial=init, objects=tuple(range(n)), prefix=shape_prefix(shape, n),
+                         label="%s/%s/%dfiles%s" % (c, shape, n, "-1absent" if absent_first else ""))
         depth = 4 * n + (n + 2 if shape != "cls" and shape != "cls-cap" else 2)
         kw = dict(label=cfg.label, cfg=cfg, alphabet="alphabet", depth=depth, oracles={"result", "resource", "ctxerr"},
                   hooks="probe", extra={"second_write": tier != "quick" or shape == "obj"})
